@@ -118,7 +118,7 @@ class C12(P.Property):
         run.seam.on_event = on_disk
         out = {}
         try:
-            with world.Watchdog(60):
+            with world.Watchdog(900 if knobs.get("big") else 180):
                 try:
                     run.sim.run(self._scenario(run, plan, w, out))
                 except core.SimLimit as e:
